@@ -1,3 +1,5 @@
+import datetime
+
 import dpath
 
 from openfisca_core.indexed_enums import Enum
@@ -30,6 +32,8 @@ def calculate(tax_benefit_system, input_data: dict) -> dict:
             entity_result = float(
                 str(result[entity_index]),
             )  # To turn the float32 into a regular float without adding confusing extra decimals. There must be a better way.
+        elif variable.value_type == datetime.date:
+            entity_result = str(result[entity_index])
         elif variable.value_type == str:
             entity_result = str(result[entity_index])
         else:
